@@ -47,8 +47,9 @@ def handle (toks : List String) : Option String :=
       let shards := distribute r.shards r.assign r.recs
       -- known finding F8: with more than one shard, a shard that enters with no rows while others
       -- have rows leaves the collective shuffle and the query never completes
-      if r.shards > 1 ∧ shards.any (·.isEmpty) ∧ ¬ r.recs.isEmpty then some "hang"
-      else some (showNatList (run r.w aggChunk shards))
+      match runOutcome r.w aggChunk shards with
+      | none => some "hang"
+      | some h => some (showNatList h)
   | _ => none
 
 def oracle (toks : List String) (impl : String) : Option String :=
